@@ -2,6 +2,7 @@
 # MANIFEST.setup_cmd: build the framework from files on disk only (offline).
 cd "$(dirname "$0")"
 export CARGO_NET_OFFLINE=true
+export CARGO_TARGET_DIR="$PWD/build/target"      # the same directory vlib/core.py uses (harness/.cargo/config.toml names it for hand-run cargo only)
 mkdir -p build evidence replays
 [ -f harness/Cargo.lock ] || cp /repo/Cargo.lock harness/Cargo.lock
 ( cd harness && RUSTFLAGS="--cfg dmntk_verif" cargo build --offline 2>&1 | tail -3 )
@@ -11,6 +12,10 @@ python3 -c "
 import sys; sys.path.insert(0, '.')
 from vlib import core
 print(core.refresh_coq_project())"
-( cd coq && timeout 3000 make -k -j16 2>&1 | tail -5 )
+( cd coq && timeout 3000 make -k -j16 2>&1 | tail -5; exit ${PIPESTATUS[0]} ); coq_rc=$?
+[ -x build/target/debug/dv ] && [ -x build/target/release/dv ] || echo "setup: the harness did not build (every check will report it: it rebuilds the harness itself)"
+[ $coq_rc -eq 0 ] || echo "setup: the Coq development did not build completely (make -k exit $coq_rc); the proof gate of each check rebuilds its own files and reports what fails"
 echo "setup done"
+# This is a warm-up only: every check rebuilds what it needs from the current /repo and reports a build or proof failure itself as a
+# VIOLATION ... no-failing-input-found, so a failure here must not stop the checks from running and saying so.
 exit 0
